@@ -166,9 +166,13 @@ func (x *Explorer) initTruth() {
 		for n := 0; n < 2 && n < x.P.Resources; n++ {
 			x.Truth[name(n)] = nil
 			for nq := 0; nq < 2; nq++ {
-				c := &gw.Content{IsModel: true, M: absval.KV{}}
+				c := &gw.Content{IsModel: n == 0, M: absval.KV{}}
 				for k := x.R.Intn(3); k >= 0; k-- {
-					c.M[x.R.Intn(4)] = absval.V{K: 'p', N: x.fresh()}
+					if c.IsModel {
+						c.M[x.R.Intn(4)] = absval.V{K: 'p', N: x.fresh()}
+					} else {
+						c.L = append(c.L, absval.V{K: 'p', N: x.fresh()})
+					}
 				}
 				x.Truth[name(n)+"?q="+strconv.Itoa(nq)] = c
 			}
@@ -184,6 +188,8 @@ func (x *Explorer) truthLines() []string {
 			for k := 0; k < 4; k++ {
 				out = append(out, "TRUTH\t"+strconv.Itoa(i)+"q"+strconv.Itoa(k)+"\t"+x.Truth[name(i)+"?q="+strconv.Itoa(k%2)].Abs())
 			}
+			// without a query the service answers for its default query q=0
+			out = append(out, "TRUTH\t"+strconv.Itoa(i)+"\t"+x.Truth[name(i)+"?q=0"].Abs())
 			continue
 		}
 		out = append(out, "TRUTH\t"+strconv.Itoa(i)+"\t"+x.Truth[name(i)].Abs())
@@ -255,6 +261,20 @@ func (x *Explorer) answerFor(q *gw.Req) gw.Action {
 			} else {
 				a.Text, a.Abs = `{"error":{"code":"system.internalError","message":"boom"}}`, "err\tsystem.internalError"
 			}
+		case x.R.Intn(9) == 0:
+			// an improper answer (a value that is no RES value, after proper ones): discarded as a whole, so for this variant the
+			// announced state stays what it was
+			x.Truth[key] = old[key]
+			if cur.IsModel {
+				a.Text = x.R.Pick(`{"result":{"model":{"k3":424250,"k0":[1]}}}`, `{"result":{"events":[{"event":"change","data":{"values":{"k3":424251,"k0":{"rid":""}}}}]}}`,
+					`{"result":{"collection":[1,2]}}`, `{"result":{"model":{"k2":424252,"k1":{"action":"nuke"}}}}`)
+			} else {
+				a.Text = x.R.Pick(`{"result":{"collection":[424253,{"action":"delete"}]}}`, `{"result":{"collection":[424254,[1]]}}`, `{"result":{"model":{"k0":1}}}`,
+					`{"result":{"events":[{"event":"add","data":{"idx":0,"value":{"rid":""}}}]}}`)
+			}
+			a.Abs = "err\tmalformed"
+		case !cur.IsModel:
+			a.Text, a.Abs = `{"result":{"collection":`+cur.L.JSON()+`}}`, "qresult\tcollection"
 		case x.R.Intn(3) == 0:
 			a.Text, a.Abs = `{"result":{"model":`+cur.M.JSON()+`}}`, "qresult\tmodel"
 		default:
@@ -291,9 +311,14 @@ func (x *Explorer) answerFor(q *gw.Req) gw.Action {
 			k, _ := strconv.Atoi(strings.TrimPrefix(gp.Query, "q="))
 			normQ = "q=" + strconv.Itoa(k%2)
 			c = x.Truth[rest+"?"+normQ]
+		} else if x.P.Queries && (rest == name(0) || rest == name(1)) {
+			// a query resource asked for without a query: the service answers for its default query
+			normQ = "q=0"
+			c = x.Truth[rest+"?"+normQ]
 		}
 		if normQ != "" && c != nil && !(fault) {
-			a.Text = `{"result":{"model":` + c.M.JSON() + `,"query":"` + normQ + `"}}`
+			body := contentJSON(c)
+			a.Text = `{"result":` + body[:len(body)-1] + `,"query":"` + normQ + `"}}`
 			a.Abs = "get\t" + c.Abs() + "\tnorm=" + gw.AbsRID(rest+"?"+normQ)
 			return a
 		}
@@ -388,9 +413,25 @@ func (x *Explorer) svcEvent() (gw.Action, bool) {
 		for nq := 0; nq < 2; nq++ {
 			key := name(n) + "?q=" + strconv.Itoa(nq)
 			cur := x.Truth[key]
-			pq.old[key] = &gw.Content{IsModel: true, M: absval.KV{}}
+			pq.old[key] = &gw.Content{IsModel: cur.IsModel, M: absval.KV{}, L: append(absval.List(nil), cur.L...)}
 			for k, v := range cur.M {
 				pq.old[key].M[k] = v
+			}
+			if !cur.IsModel {
+				if x.R.Intn(3) > 0 {
+					nl := append(absval.List(nil), cur.L...)
+					for e := 1 + x.R.Intn(2); e > 0; e-- {
+						if len(nl) > 0 && x.R.Intn(2) == 0 {
+							i := x.R.Intn(len(nl))
+							nl = append(nl[:i:i], nl[i+1:]...)
+						} else {
+							i := x.R.Intn(len(nl) + 1)
+							nl = append(nl[:i:i], append(absval.List{{K: 'p', N: x.fresh()}}, nl[i:]...)...)
+						}
+					}
+					x.Truth[key] = &gw.Content{IsModel: false, L: nl}
+				}
+				continue
 			}
 			if x.R.Intn(3) > 0 {
 				nm := absval.KV{}
@@ -504,7 +545,7 @@ func (x *Explorer) clientFrame(c *gw.Client) (gw.Action, bool) {
 		}
 	}
 	rid := name(n)
-	if x.P.Queries && n < 2 {
+	if x.P.Queries && n < 2 && x.R.Intn(7) != 0 {
 		rid = name(n) + "?q=" + strconv.Itoa(x.R.Intn(4))
 	}
 	if x.P.LongRids && x.R.Intn(6) == 0 {
